@@ -8,6 +8,8 @@
 (***************************************************************************)
 EXTENDS Ops, JsonText, Path, PathText, Json, IOUtils, TLC
 
+SYS == INSTANCE System WITH ChainLen <- 0, StartSet <- "none", Walkers <- 0, reg <- <<>>, buf <- <<>>, hist <- <<>>, start <- <<>>, w <- 0
+
 Rec == ndJsonDeserialize(IOEnv.TRACE)
 
 VARIABLES l,      \* next trace line
@@ -304,9 +306,36 @@ SyntaxOk(ev, kind) ==
           /\ (Has(r.re, "t") /\ r.re.t # "panic")
 
 ----------------------------------------------------------------------------
+(* chains (C07, C17): the abstract registers are advanced with System!ApplyStep, the very   *)
+(* operator the state machine's actions use; the crate's own output bytes were threaded    *)
+(* from call to call by the harness and must equal Encode(register) at every step, and the *)
+(* shared buffer must be the concatenation of the results so far                            *)
+RECURSIVE ChainFrom(_, _, _, _, _)
+ChainFrom(steps, outs, k, rg, bufSoFar) ==
+  IF k > Len(steps) THEN TRUE
+  ELSE LET s == steps[k]
+           r == SYS!ApplyStep(s, rg)
+           o == outs[k]
+       IN IF r.t = "doc"
+          THEN /\ Has(o, "t") /\ o.t = "bytes"
+               /\ Tup(o.v) = Tup(Encode(r.v))
+               /\ Tup(o.buf) = Tup(bufSoFar \o Encode(r.v))
+               /\ IsCanonical(o.v)
+               /\ ChainFrom(steps, outs, k + 1, [rg EXCEPT ![s.dst] = r.v], bufSoFar \o Encode(r.v))
+          ELSE /\ Has(o, "t") /\ o.t = r.t
+               /\ (r.t = "err" /\ s.f # "select" => o.e = r.e)
+               /\ Tup(o.buf) = Tup(bufSoFar)
+               /\ ChainFrom(steps, outs, k + 1, rg, bufSoFar)
+ChainOk(ev) ==
+  /\ ev.res.t = "chain"
+  /\ \A i \in 1..Len(ev.start) : Tup(ev.res.start[i]) = Tup(Encode(ev.start[i]))
+  /\ Len(ev.res.outs) = Len(ev.steps)
+  /\ ChainFrom(ev.steps, ev.res.outs, 1, ev.start, <<>>)
+
+----------------------------------------------------------------------------
 Accept(ev) ==
   LET op == ev.op
-      a == ev.a
+      a == IF Has(ev, "a") THEN ev.a ELSE [z |-> 0]
   IN
   CASE op = "to_vec" -> SafeEq(RBytes(Encode(D(ev, 1))), ev.res) /\ BufferOk(ev)
     [] op = "roundtrip" -> RoundTripOk(ev)
@@ -314,6 +343,8 @@ Accept(ev) ==
     [] op = "render" -> RenderOk(ev)
     [] op = "serde" -> SerdeOk(ev)
     [] op = "select" -> SelectOk(ev)
+    [] op = "chain" -> ChainOk(ev)
+    [] op = "deep" -> ev.res.t \in {"ok", "err"}
     [] op = "jp_parse" -> SyntaxOk(ev, "path")
     [] op = "kp_parse" -> SyntaxOk(ev, "kp")
     [] op \in {"to_string", "to_pretty_string"} ->
